@@ -6,7 +6,7 @@
     (the shape is a list of any length, including the empty one). *)
 From Coq Require Import List NArith ZArith Bool.
 From RlibV Require Import C19.Model C19.Spec C19.Corr.
-From RlibV Require Import C19.ProofsBasic C19.ProofsIndex C19.ProofsTensor C19.ProofsWrite C19.ProofsCorr.
+From RlibV Require Import C19.ProofsBasic C19.ProofsIndex C19.ProofsTensor C19.ProofsWrite C19.ProofsNested C19.ProofsCorr.
 Import ListNotations.
 Local Open Scope N_scope.
 
@@ -73,6 +73,13 @@ Proof. exact @set_get. Qed.
 Theorem c19_write_order : forall (A : Type) (t : tensor A), wf t ->
   write t = Some (render (dims t) (data t)) /\ elems (render (dims t) (data t)) = data t.
 Proof. exact @write_order. Qed.
+
+(** the same text read as nested structure: a tensor of shape d :: ds' is written as its d sub-tensors of
+    shape ds' in order, joined by ' ' when ds' = [] (inside a row) and by length ds' newlines otherwise;
+    rank 0 is the single element *)
+Theorem c19_write_nested : forall (A : Type) (t : tensor A), wf t ->
+  write t = Some (nested (dims t) (data t)).
+Proof. exact @write_nested. Qed.
 
 (** the Debug text is produced by the same odometer: D opening brackets, the elements in storage order
     with "]"*c ", " "["*c after the m-th one (c = [wraps] = completed trailing dimensions), D closing brackets *)
